@@ -145,9 +145,25 @@ fn lower_attributes(list: Option<cst::AttributeList>) -> Vec<ast::Attribute> {
         list.attributes()
             .map(|attr| {
                 let syntax = attr.syntax();
+                // the node carries the trivia that follows the attribute; its text ends with its last token
+                let text = syntax.text().to_string();
+                let end = syntax
+                    .descendants_with_tokens()
+                    .filter_map(|element| element.into_token())
+                    .filter(|token| {
+                        !matches!(
+                            token.kind(),
+                            MySyntaxKind::Whitespace | MySyntaxKind::Comment
+                        )
+                    })
+                    .last()
+                    .map(|token| usize::from(token.text_range().end() - syntax.text_range().start()));
                 ast::Attribute {
                     ast: MySyntaxNodePtr::new(syntax),
-                    text: syntax.text().to_string(),
+                    text: match end {
+                        Some(end) if end <= text.len() => text[..end].to_string(),
+                        _ => text,
+                    },
                 }
             })
             .collect()
